@@ -151,6 +151,8 @@ def spec_task_edges(spec):
                 edges.add((a, t["id"]))
         for a in t.get("mem_in", []):          # optional: consumes the in-memory product of task a
             edges.add((a, t["id"]))
+        for a in t.get("dirdep", []):          # optional: consumes the DirectoryNode product (`dirprod`) of task a
+            edges.add((a, t["id"]))
     return edges
 
 
